@@ -2,7 +2,9 @@
 //! a tree and a `Deserializer` that rebuilds a typed value from a tree (both non-human-readable, like rmp_serde).
 //! Text tokens: N unit | T F | U<dec> | I<dec> (the negative integer -(m+1)) | S<hex> str | B<hex> bytes |
 //! O none | J <t> some | Q<n> <t>*n seq | P<n> <t>*n tuple/struct fields in order | V:<name> unit variant |
-//! W:<name> <t> variant with payload (tuple/struct variants carry a P node) | M<n> (<k> <v>)*n map.
+//! W:<name> <t> variant with payload (tuple/struct variants carry a P node) | M<n> (<k> <v>)*n map |
+//! R<n> (.<field> <t>)*n a struct / struct-variant body WITH its field names (only produced in "named" mode, which the
+//! CBOR ops use: cbor4ii writes structs as maps keyed by field name, so the names are part of the wire format).
 use serde::de::{self, DeserializeSeed, IntoDeserializer, Visitor};
 use serde::ser::{self, Serialize};
 use std::fmt;
@@ -22,6 +24,7 @@ pub enum Tree {
     UVar(String),
     NVar(String, Box<Tree>),
     Map(Vec<(Tree, Tree)>),
+    Rec(Vec<(String, Tree)>),
 }
 
 fn hx(b: &[u8]) -> String {
@@ -59,6 +62,13 @@ impl Tree {
                 out.push(format!("M{}", ps.len()));
                 ps.iter().for_each(|(k, v)| {
                     k.tokens(out);
+                    v.tokens(out)
+                })
+            }
+            Tree::Rec(fs) => {
+                out.push(format!("R{}", fs.len()));
+                fs.iter().for_each(|(k, v)| {
+                    out.push(format!(".{k}"));
                     v.tokens(out)
                 })
             }
@@ -118,6 +128,18 @@ impl Tree {
                 }
                 (Tree::Map(ps), i)
             }
+            "R" => {
+                let n: usize = rest.parse().ok()?;
+                let mut i = 1;
+                let mut fs = vec![];
+                for _ in 0..n {
+                    let name = ws.get(i)?.strip_prefix('.')?.to_string();
+                    let (t, used) = Tree::parse(&ws[i + 1..])?;
+                    fs.push((name, t));
+                    i += 1 + used;
+                }
+                (Tree::Rec(fs), i)
+            }
             _ => return None,
         })
     }
@@ -145,18 +167,27 @@ impl de::Error for TErr {
 // ------------------------------------------------------------------ value -> tree
 
 pub fn to_tree<T: Serialize + ?Sized>(v: &T) -> Result<Tree, TErr> {
-    v.serialize(TreeSer)
+    v.serialize(TreeSer(false))
+}
+/// the same with struct / struct-variant bodies recorded as `Rec` nodes carrying the field names
+pub fn to_tree_named<T: Serialize + ?Sized>(v: &T) -> Result<Tree, TErr> {
+    v.serialize(TreeSer(true))
 }
 
-pub struct TreeSer;
+/// `.0` = named mode
+#[derive(Clone, Copy)]
+pub struct TreeSer(pub bool);
 pub struct SeqSer {
     items: Vec<Tree>,
-    kind: u8, // 0 seq, 1 tuple
+    names: Vec<String>,
+    kind: u8, // 0 seq, 1 tuple, 2 struct with names
     variant: Option<String>,
+    named: bool,
 }
 pub struct MapSer {
     items: Vec<(Tree, Tree)>,
     key: Option<Tree>,
+    named: bool,
 }
 
 fn int(v: i64) -> Tree {
@@ -226,7 +257,7 @@ impl ser::Serializer for TreeSer {
         Ok(Tree::None)
     }
     fn serialize_some<T: Serialize + ?Sized>(self, v: &T) -> Result<Tree, TErr> {
-        Ok(Tree::Some(Box::new(v.serialize(TreeSer)?)))
+        Ok(Tree::Some(Box::new(v.serialize(self)?)))
     }
     fn serialize_unit(self) -> Result<Tree, TErr> {
         Ok(Tree::Unit)
@@ -238,31 +269,31 @@ impl ser::Serializer for TreeSer {
         Ok(Tree::UVar(variant.into()))
     }
     fn serialize_newtype_struct<T: Serialize + ?Sized>(self, _: &'static str, v: &T) -> Result<Tree, TErr> {
-        v.serialize(TreeSer)
+        v.serialize(self)
     }
     fn serialize_newtype_variant<T: Serialize + ?Sized>(self, _: &'static str, _: u32, variant: &'static str, v: &T) -> Result<Tree, TErr> {
-        Ok(Tree::NVar(variant.into(), Box::new(v.serialize(TreeSer)?)))
+        Ok(Tree::NVar(variant.into(), Box::new(v.serialize(self)?)))
     }
     fn serialize_seq(self, _: Option<usize>) -> Result<SeqSer, TErr> {
-        Ok(SeqSer { items: vec![], kind: 0, variant: None })
+        Ok(SeqSer { items: vec![], names: vec![], kind: 0, variant: None, named: self.0 })
     }
     fn serialize_tuple(self, _: usize) -> Result<SeqSer, TErr> {
-        Ok(SeqSer { items: vec![], kind: 1, variant: None })
+        Ok(SeqSer { items: vec![], names: vec![], kind: 1, variant: None, named: self.0 })
     }
     fn serialize_tuple_struct(self, _: &'static str, _: usize) -> Result<SeqSer, TErr> {
-        Ok(SeqSer { items: vec![], kind: 1, variant: None })
+        Ok(SeqSer { items: vec![], names: vec![], kind: 1, variant: None, named: self.0 })
     }
     fn serialize_tuple_variant(self, _: &'static str, _: u32, variant: &'static str, _: usize) -> Result<SeqSer, TErr> {
-        Ok(SeqSer { items: vec![], kind: 1, variant: Some(variant.into()) })
+        Ok(SeqSer { items: vec![], names: vec![], kind: 1, variant: Some(variant.into()), named: self.0 })
     }
     fn serialize_map(self, _: Option<usize>) -> Result<MapSer, TErr> {
-        Ok(MapSer { items: vec![], key: None })
+        Ok(MapSer { items: vec![], key: None, named: self.0 })
     }
     fn serialize_struct(self, _: &'static str, _: usize) -> Result<SeqSer, TErr> {
-        Ok(SeqSer { items: vec![], kind: 1, variant: None })
+        Ok(SeqSer { items: vec![], names: vec![], kind: if self.0 { 2 } else { 1 }, variant: None, named: self.0 })
     }
     fn serialize_struct_variant(self, _: &'static str, _: u32, variant: &'static str, _: usize) -> Result<SeqSer, TErr> {
-        Ok(SeqSer { items: vec![], kind: 1, variant: Some(variant.into()) })
+        Ok(SeqSer { items: vec![], names: vec![], kind: if self.0 { 2 } else { 1 }, variant: Some(variant.into()), named: self.0 })
     }
     fn serialize_u128(self, _: u128) -> Result<Tree, TErr> {
         Err(TErr("u128 unsupported".into()))
@@ -274,11 +305,19 @@ impl ser::Serializer for TreeSer {
 
 impl SeqSer {
     fn push<T: Serialize + ?Sized>(&mut self, v: &T) -> Result<(), TErr> {
-        self.items.push(v.serialize(TreeSer)?);
+        self.items.push(v.serialize(TreeSer(self.named))?);
         Ok(())
     }
+    fn field<T: Serialize + ?Sized>(&mut self, name: &'static str, v: &T) -> Result<(), TErr> {
+        self.names.push(name.to_string());
+        self.push(v)
+    }
     fn done(self) -> Result<Tree, TErr> {
-        let body = if self.kind == 0 { Tree::Seq(self.items) } else { Tree::Tup(self.items) };
+        let body = match self.kind {
+            0 => Tree::Seq(self.items),
+            2 => Tree::Rec(self.names.into_iter().zip(self.items).collect()),
+            _ => Tree::Tup(self.items),
+        };
         Ok(match self.variant {
             Some(n) => Tree::NVar(n, Box::new(body)),
             None => body,
@@ -328,8 +367,8 @@ impl ser::SerializeTupleVariant for SeqSer {
 impl ser::SerializeStruct for SeqSer {
     type Ok = Tree;
     type Error = TErr;
-    fn serialize_field<T: Serialize + ?Sized>(&mut self, _: &'static str, v: &T) -> Result<(), TErr> {
-        self.push(v)
+    fn serialize_field<T: Serialize + ?Sized>(&mut self, name: &'static str, v: &T) -> Result<(), TErr> {
+        self.field(name, v)
     }
     fn end(self) -> Result<Tree, TErr> {
         self.done()
@@ -338,8 +377,8 @@ impl ser::SerializeStruct for SeqSer {
 impl ser::SerializeStructVariant for SeqSer {
     type Ok = Tree;
     type Error = TErr;
-    fn serialize_field<T: Serialize + ?Sized>(&mut self, _: &'static str, v: &T) -> Result<(), TErr> {
-        self.push(v)
+    fn serialize_field<T: Serialize + ?Sized>(&mut self, name: &'static str, v: &T) -> Result<(), TErr> {
+        self.field(name, v)
     }
     fn end(self) -> Result<Tree, TErr> {
         self.done()
@@ -349,12 +388,12 @@ impl ser::SerializeMap for MapSer {
     type Ok = Tree;
     type Error = TErr;
     fn serialize_key<T: Serialize + ?Sized>(&mut self, k: &T) -> Result<(), TErr> {
-        self.key = Some(k.serialize(TreeSer)?);
+        self.key = Some(k.serialize(TreeSer(self.named))?);
         Ok(())
     }
     fn serialize_value<T: Serialize + ?Sized>(&mut self, v: &T) -> Result<(), TErr> {
         let k = self.key.take().ok_or_else(|| TErr("value without key".into()))?;
-        self.items.push((k, v.serialize(TreeSer)?));
+        self.items.push((k, v.serialize(TreeSer(self.named))?));
         Ok(())
     }
     fn end(self) -> Result<Tree, TErr> {
@@ -391,6 +430,23 @@ impl<'de, 'a> de::MapAccess<'de> for MapAcc<'a> {
             Some((k, v)) => {
                 self.1 = Some(v);
                 seed.deserialize(TreeDe(k)).map(Some)
+            }
+            None => Ok(None),
+        }
+    }
+    fn next_value_seed<S: DeserializeSeed<'de>>(&mut self, seed: S) -> Result<S::Value, TErr> {
+        seed.deserialize(TreeDe(self.1.take().ok_or_else(|| TErr("no value".into()))?))
+    }
+}
+struct RecAcc<'a>(std::slice::Iter<'a, (String, Tree)>, Option<&'a Tree>);
+impl<'de, 'a> de::MapAccess<'de> for RecAcc<'a> {
+    type Error = TErr;
+    fn next_key_seed<S: DeserializeSeed<'de>>(&mut self, seed: S) -> Result<Option<S::Value>, TErr> {
+        match self.0.next() {
+            Some((k, v)) => {
+                self.1 = Some(v);
+                let de: de::value::StrDeserializer<'_, TErr> = k.as_str().into_deserializer();
+                seed.deserialize(de).map(Some)
             }
             None => Ok(None),
         }
@@ -448,6 +504,7 @@ impl<'de, 'a> de::Deserializer<'de> for TreeDe<'a> {
             Tree::Some(t) => v.visit_some(TreeDe(t)),
             Tree::Seq(ts) | Tree::Tup(ts) => v.visit_seq(SeqAcc(ts.iter())),
             Tree::Map(ps) => v.visit_map(MapAcc(ps.iter(), None)),
+            Tree::Rec(fs) => v.visit_map(RecAcc(fs.iter(), None)),
             Tree::UVar(n) => v.visit_enum(EnumAcc(n, None)),
             Tree::NVar(n, t) => v.visit_enum(EnumAcc(n, Some(t))),
         }
